@@ -1,5 +1,4 @@
-import SaoVerif.Proofs.Os
-import SaoVerif.Properties.C16
+import SaoVerif.Proofs.SortedStore
 /-!
 # Identifiers stay below the counters
 
@@ -18,9 +17,10 @@ def cntO (p : List Order × Option Nat × List Shard × Nat) : Nat :=
   | some n => n
 
 def BndP (p : List Order × Option Nat × List Shard × Nat) : Prop :=
-  (∀ x ∈ p.1, x.id < cntO p) ∧ (∀ y ∈ p.2.2.1, y.id < p.2.2.2)
+  ((∀ x ∈ p.1, x.id < cntO p) ∧ (∀ y ∈ p.2.2.1, y.id < p.2.2.2)) ∧
+  ((p.1.map (·.id)).Pairwise (· < ·) ∧ (p.2.2.1.map (·.id)).Pairwise (· < ·))
 
-/-- every stored identifier is below its counter -/
+/-- every stored identifier is below its counter, and both stores are sorted by id (so no id occurs twice) -/
 def Bnd (s : State) : Prop := BndP (osPart s)
 
 theorem getOrderCount_os (s : State) : s.getOrderCount = cntO (osPart s) := by
@@ -29,10 +29,21 @@ theorem getOrderCount_os (s : State) : s.getOrderCount = cntO (osPart s) := by
   | none => rfl
   | some n => cases n <;> rfl
 
-theorem Bnd_iff (s : State) : Bnd s ↔ (∀ x ∈ s.orders, x.id < s.getOrderCount) ∧ (∀ y ∈ s.shards, y.id < s.shardCount) := by
+theorem Bnd_iff' (s : State) : Bnd s ↔ ((∀ x ∈ s.orders, x.id < s.getOrderCount) ∧ (∀ y ∈ s.shards, y.id < s.shardCount)) ∧
+    ((s.orders.map (·.id)).Pairwise (· < ·) ∧ (s.shards.map (·.id)).Pairwise (· < ·)) := by
   unfold Bnd BndP
   rw [getOrderCount_os]
   rfl
+
+theorem Bnd_ids {s : State} (hb : Bnd s) : (∀ x ∈ s.orders, x.id < s.getOrderCount) ∧ (∀ y ∈ s.shards, y.id < s.shardCount) :=
+  ((Bnd_iff' s).mp hb).1
+
+theorem Bnd_sorted {s : State} (hb : Bnd s) : (s.orders.map (·.id)).Pairwise (· < ·) ∧ (s.shards.map (·.id)).Pairwise (· < ·) :=
+  ((Bnd_iff' s).mp hb).2
+
+theorem Bnd_mk {s : State} (h1 : ∀ x ∈ s.orders, x.id < s.getOrderCount) (h2 : ∀ y ∈ s.shards, y.id < s.shardCount)
+    (h3 : (s.orders.map (·.id)).Pairwise (· < ·)) (h4 : (s.shards.map (·.id)).Pairwise (· < ·)) : Bnd s :=
+  (Bnd_iff' s).mpr ⟨⟨h1, h2⟩, h3, h4⟩
 
 /-- `Bnd` holds afterwards and no counter went down -/
 def Ext (s s' : State) : Prop := Bnd s' ∧ s.getOrderCount ≤ s'.getOrderCount ∧ s.shardCount ≤ s'.shardCount
@@ -67,48 +78,48 @@ theorem getShard_mem {s : State} {i : Nat} {x : Shard} (h : s.getShard i = some 
   exact ⟨List.mem_of_find?_eq_some h, by simpa using List.find?_some h⟩
 
 theorem getOrder_bnd {s : State} {i : Nat} {o : Order} (hb : Bnd s) (h : s.getOrder i = some o) : o.id < s.getOrderCount :=
-  ((Bnd_iff s).mp hb).1 o (getOrder_mem h).1
+  (Bnd_ids hb).1 o (getOrder_mem h).1
 
 theorem getShard_bnd {s : State} {i : Nat} {x : Shard} (hb : Bnd s) (h : s.getShard i = some x) : x.id < s.shardCount :=
-  ((Bnd_iff s).mp hb).2 x (getShard_mem h).1
+  (Bnd_ids hb).2 x (getShard_mem h).1
 
 /-! ### writing -/
 theorem setOrder_ext {s : State} {o : Order} (hb : Bnd s) (ho : o.id < s.getOrderCount) : Ext s (s.setOrder o) := by
   have hc : (s.setOrder o).getOrderCount = s.getOrderCount := rfl
-  refine ⟨(Bnd_iff _).mpr ⟨?_, ((Bnd_iff s).mp hb).2⟩, Nat.le_of_eq hc.symm, Nat.le_refl _⟩
+  refine ⟨Bnd_mk ?_ (Bnd_ids hb).2 (upsertBy_sorted (fun (z : Order) => z.id) _ _ (Bnd_sorted hb).1) (Bnd_sorted hb).2, Nat.le_of_eq hc.symm, Nat.le_refl _⟩
   intro x hx
   rw [hc]
   rcases upsertBy_mem _ _ _ _ hx with h | h
   · rw [h]; exact ho
-  · exact ((Bnd_iff s).mp hb).1 x h
+  · exact (Bnd_ids hb).1 x h
 
 theorem removeOrder_ext {s : State} (i : Nat) (hb : Bnd s) : Ext s (s.removeOrder i) := by
-  refine ⟨(Bnd_iff _).mpr ⟨?_, ((Bnd_iff s).mp hb).2⟩, Nat.le_refl _, Nat.le_refl _⟩
+  refine ⟨Bnd_mk ?_ (Bnd_ids hb).2 (filter_sorted (fun (z : Order) => z.id) _ _ (Bnd_sorted hb).1) (Bnd_sorted hb).2, Nat.le_refl _, Nat.le_refl _⟩
   intro x hx
-  exact ((Bnd_iff s).mp hb).1 x ((List.mem_filter.mp hx).1)
+  exact (Bnd_ids hb).1 x ((List.mem_filter.mp hx).1)
 
 theorem setShard_ext {s : State} {x : Shard} (hb : Bnd s) (hx : x.id < s.shardCount) : Ext s (s.setShard x) := by
-  refine ⟨(Bnd_iff _).mpr ⟨((Bnd_iff s).mp hb).1, ?_⟩, Nat.le_refl _, Nat.le_refl _⟩
+  refine ⟨Bnd_mk (Bnd_ids hb).1 ?_ (Bnd_sorted hb).1 (upsertBy_sorted (fun (z : Shard) => z.id) _ _ (Bnd_sorted hb).2), Nat.le_refl _, Nat.le_refl _⟩
   intro y hy
   rcases upsertBy_mem _ _ _ _ hy with h | h
   · rw [h]; exact hx
-  · exact ((Bnd_iff s).mp hb).2 y h
+  · exact (Bnd_ids hb).2 y h
 
 theorem removeShard_ext {s : State} (i : Nat) (hb : Bnd s) : Ext s (s.removeShard i) := by
-  refine ⟨(Bnd_iff _).mpr ⟨((Bnd_iff s).mp hb).1, ?_⟩, Nat.le_refl _, Nat.le_refl _⟩
+  refine ⟨Bnd_mk (Bnd_ids hb).1 ?_ (Bnd_sorted hb).1 (filter_sorted (fun (z : Shard) => z.id) _ _ (Bnd_sorted hb).2), Nat.le_refl _, Nat.le_refl _⟩
   intro x hx
-  exact ((Bnd_iff s).mp hb).2 x ((List.mem_filter.mp hx).1)
+  exact (Bnd_ids hb).2 x ((List.mem_filter.mp hx).1)
 
 theorem appendOrder_ext {s : State} (o : Order) (hb : Bnd s) :
     Ext s (s.appendOrder o).2 ∧ (s.appendOrder o).1 = s.getOrderCount ∧ (s.appendOrder o).2.getOrderCount = s.getOrderCount + 1 := by
-  have h := C16_appendOrder_fresh s o ((Bnd_iff s).mp hb).1
+  have h := C16_appendOrder_fresh s o (Bnd_ids hb).1
   have hc := getOrderCount_after_append s o
-  refine ⟨⟨(Bnd_iff _).mpr ⟨h.2.2.1, ((Bnd_iff s).mp hb).2⟩, by omega, Nat.le_refl _⟩, rfl, hc⟩
+  refine ⟨⟨Bnd_mk h.2.2.1 (Bnd_ids hb).2 (upsertBy_sorted (fun (z : Order) => z.id) _ _ (Bnd_sorted hb).1) (Bnd_sorted hb).2, by omega, Nat.le_refl _⟩, rfl, hc⟩
 
 theorem appendShard_ext {s : State} (x : Shard) (hb : Bnd s) :
     Ext s (s.appendShard x).2 ∧ (s.appendShard x).1 = s.shardCount ∧ (s.appendShard x).2.shardCount = s.shardCount + 1 := by
-  have h := C16_appendShard_fresh s x ((Bnd_iff s).mp hb).2
-  refine ⟨⟨(Bnd_iff _).mpr ⟨((Bnd_iff s).mp hb).1, h.2.2.1⟩, Nat.le_refl _, Nat.le_succ _⟩, rfl, rfl⟩
+  have h := C16_appendShard_fresh s x (Bnd_ids hb).2
+  refine ⟨⟨Bnd_mk (Bnd_ids hb).1 h.2.2.1 (Bnd_sorted hb).1 (upsertBy_sorted (fun (z : Shard) => z.id) _ _ (Bnd_sorted hb).2), Nat.le_refl _, Nat.le_succ _⟩, rfl, rfl⟩
 
 /-! ### automation -/
 attribute [grind →] send_os sendLit_os removeDataExpireBlock_os marketDeposit_os marketWithdraw_os nodeCreate_os nodeReset_os
